@@ -454,6 +454,252 @@ def check_expected(got, expected):
     return None
 
 
+# --------------------------------------------------------------------------- QPACK laws
+# The Lean model takes the QPACK decoder as a parameter `Q : Qpack` (AQ.Model.Qpack):
+# `Q.dec E blk` = answer for header block `blk` once the encoder-stream bytes `E` have been
+# fed, and builds the stateful decoder `qpackOracle Q` from it.  This section evaluates
+# `Q.dec` on FRESH pylsqpack decoders and checks, on genuine pylsqpack.Encoder output,
+# that a LIVE decoder used the way h3/connection.py uses it behaves like `qpackOracle Q`,
+# plus the three `QpackLaws` (stable / encErr / decErr).
+
+QP_BASE = [(b":method", b"GET"), (b":scheme", b"https"), (b":authority", b"a"), (b":path", b"/")]
+
+
+def _qp_outcome(fn):
+    import pylsqpack
+    try:
+        return ("h", tuple(fn()[1]))
+    except pylsqpack.StreamBlocked:
+        return ("b",)
+    except pylsqpack.DecompressionFailed:
+        return ("f",)
+
+
+def qp_timeline(r, cap, n, acks):
+    """genuine encoder output: (settings bytes, [(encoder bytes, block, headers)]).
+    `acks=False`: the encoder never hears from the decoder, so a conformant encoder
+    cannot evict an entry that one of its blocks still needs."""
+    import pylsqpack
+    enc = pylsqpack.Encoder()
+    setb = enc.apply_settings(cap, 16)
+    shadow = pylsqpack.Decoder(cap, 16)
+    shadow.feed_encoder(setb)
+    pool = [(b"x-h%d" % i, b"v%d-" % i + b"z" * r.choice([3, 20, 40])) for i in range(7)]
+    out = []
+    for k in range(n):
+        hs = QP_BASE + r.sample(pool, r.choice([1, 1, 2, 3]))
+        e, b = enc.encode(4 * k, hs)
+        out.append((e, b, hs))
+        if acks:
+            shadow.feed_encoder(e)
+            ctl, got = shadow.feed_header(4 * k, b)
+            assert got == hs
+            enc.feed_decoder(ctl)
+    return setb, out
+
+
+def qp_dec(cap, E, blk, sid=0, chunks=None):
+    """`Q.dec E blk`: a FRESH decoder fed E (in one piece, or in the given chunks)"""
+    import pylsqpack
+    d = pylsqpack.Decoder(cap, 16)
+    for c in (chunks if chunks is not None else [E]):
+        d.feed_encoder(c)
+    return _qp_outcome(lambda: d.feed_header(sid, blk))
+
+
+class QpModel:
+    """`qpackOracle Q` of AQ.Model.Qpack, with `Q.dec` = qp_dec"""
+    def __init__(self, cap):
+        self.cap, self.enc, self.pending = cap, b"", []
+
+    def decode(self, sid, blk):
+        o = qp_dec(self.cap, self.enc, blk)
+        if o == ("b",):
+            self.pending.append((sid, blk))
+        return o
+
+    def feed_encoder(self, x):
+        self.enc += x
+        return [sid for sid, blk in self.pending if qp_dec(self.cap, self.enc, blk) != ("b",)]
+
+    def resume(self, sid):
+        blk = next(b for s, b in self.pending if s == sid)
+        self.pending = [(s, b) for s, b in self.pending if s != sid]
+        return qp_dec(self.cap, self.enc, blk)
+
+
+def qp_law_failure(ctx, law, detail):
+    ctx.broken.append({"kind": "broken-correspondence", "correspondence": "qpack-laws", "law": law, **detail})
+
+
+def qpack_laws(ctx, r, thorough):
+    import pylsqpack
+    stats = {"live_vs_model_ops": 0, "blocked": 0, "unblocked_reports": 0, "multi_unblock": 0,
+             "report_order_is_arrival_order": True, "stable_checks": 0, "dec_function_checks": 0}
+    for case in range(1500 if thorough else 120):
+        cap = r.choice([4096, 4096, 512, 220])
+        setb, tl = qp_timeline(r, cap, r.randrange(3, 9), acks=False)
+        ES = setb + b"".join(e for e, _, _ in tl)
+        # (1) Q.dec is a function of (concatenation of the encoder bytes, block): chunking of the
+        #     encoder stream, the stream id and blocks pending on other streams do not matter
+        for _ in range(3):
+            E = ES[:r.randrange(len(ES) + 1)]
+            _, blk, hs = r.choice(tl)
+            ref = qp_dec(cap, E, blk)
+            parts = g.random_split(r, E, max_parts=5, allow_empty=True) if E else []
+            o2 = qp_dec(cap, E, blk, sid=r.choice([0, 4, 400, 2 ** 40]), chunks=parts)
+            d = pylsqpack.Decoder(cap, 16)
+            d.feed_encoder(E)
+            for j, (_, ob, _) in enumerate(tl[:3]):
+                _qp_outcome(lambda: d.feed_header(1000 + 4 * j, ob))      # other streams, maybe pending
+            o3 = _qp_outcome(lambda: d.feed_header(8, blk))
+            stats["dec_function_checks"] += 1
+            ctx.count(("qp-dec", cap, E, blk), len(parts) > 1)
+            if ref[0] == "h" and list(ref[1]) != hs:
+                qp_law_failure(ctx, "dec-correct", {"cap": cap, "enc": E.hex(), "block": blk.hex(), "got": str(ref)})
+            if not (ref == o2 == o3):
+                qp_law_failure(ctx, "dec-function", {"cap": cap, "enc": E.hex(), "block": blk.hex(),
+                                                     "chunks": [c.hex() for c in parts],
+                                                     "one_piece": str(ref), "chunked_other_sid": str(o2),
+                                                     "with_other_streams_pending": str(o3)})
+            # (2) stable: an answer other than "blocked" survives more (genuine, ack-free) encoder bytes
+            if ref != ("b",):
+                E2 = ES[:r.randrange(len(E), len(ES) + 1)]
+                stats["stable_checks"] += 1
+                o4 = qp_dec(cap, E2, blk)
+                if o4 != ref:
+                    qp_law_failure(ctx, "stable", {"cap": cap, "enc": E.hex(), "more": E2[len(E):].hex(),
+                                                   "block": blk.hex(), "before": str(ref), "after": str(o4)})
+        # (3)+(4) a LIVE decoder used like h3/connection.py = qpackOracle Q: blocks arrive on fresh
+        #     streams, every feed_encoder is followed by resume_header of the ids it returned
+        live, model = pylsqpack.Decoder(cap, 16), QpModel(cap)
+        todo = list(range(len(tl)))
+        r.shuffle(todo)
+        cuts = g.random_split(r, ES, max_parts=r.choice([1, 2, 4, 7]), allow_empty=False)
+        script = [("E", c) for c in cuts] + [("H", k) for k in todo]
+        # keep the encoder chunks in order, interleave the header blocks anywhere
+        pos = sorted(r.sample(range(len(script)), len(cuts)))
+        order, ci, hi = [None] * len(script), 0, 0
+        for i in range(len(script)):
+            if i in pos:
+                order[i] = ("E", cuts[ci]); ci += 1
+            else:
+                order[i] = ("H", todo[hi]); hi += 1
+        trace = []
+        for op, a in order:
+            stats["live_vs_model_ops"] += 1
+            if op == "H":
+                _, blk, hs = tl[a]
+                ol = _qp_outcome(lambda: live.feed_header(4 * a, blk))
+                om = model.decode(4 * a, blk)
+                stats["blocked"] += ol == ("b",)
+                trace.append(("feed_header", 4 * a, blk.hex(), str(ol)))
+                if ol != om or (ol[0] == "h" and list(ol[1]) != hs):
+                    qp_law_failure(ctx, "feed-header", {"cap": cap, "trace": trace, "live": str(ol), "model": str(om)})
+                    break
+            else:
+                try:
+                    il = list(live.feed_encoder(a))
+                except pylsqpack.EncoderStreamError as e:
+                    il = ["error " + repr(e)]
+                im = model.feed_encoder(a)
+                trace.append(("feed_encoder", a.hex(), str(il)))
+                stats["unblocked_reports"] += len(il)
+                stats["multi_unblock"] += len(il) > 1
+                if il != im:
+                    stats["report_order_is_arrival_order"] = False
+                if sorted(map(str, il)) != sorted(map(str, im)):
+                    qp_law_failure(ctx, "feed-encoder-unblocked", {"cap": cap, "trace": trace, "live": str(il),
+                                                                   "model": str(im)})
+                    break
+                bad = False
+                for sid in il:
+                    ol = _qp_outcome(lambda: live.resume_header(sid))
+                    om = model.resume(sid)
+                    trace.append(("resume_header", sid, str(ol)))
+                    if ol != om or ol[0] != "h" or list(ol[1]) != tl[sid // 4][2]:
+                        qp_law_failure(ctx, "resume-header", {"cap": cap, "trace": trace, "live": str(ol),
+                                                              "model": str(om)})
+                        bad = True
+                        break
+                if bad:
+                    break
+        ctx.count(("qp-live", cap, tuple(map(str, order))), True)
+    # (5) encErr / decErr: a rejected encoder (decoder) stream stays rejected with more bytes —
+    #     one delivery of a ++ b closes the connection like the delivery of a alone
+    n_err = 0
+    for case in range(400 if thorough else 60):
+        setb, tl = qp_timeline(r, 4096, 3, acks=False)
+        ES = setb + b"".join(e for e, _, _ in tl)
+        bad = ES[:r.randrange(len(ES) + 1)] + bytes(r.randrange(256) for _ in range(r.randrange(1, 6)))
+        more = bytes(r.randrange(256) for _ in range(r.randrange(0, 9)))
+
+        def rejects(data, parts):
+            d = pylsqpack.Decoder(4096, 16)
+            try:
+                for c in parts:
+                    d.feed_encoder(c)
+                return False
+            except pylsqpack.EncoderStreamError:
+                return True
+        if rejects(bad, [bad]):
+            n_err += 1
+            if not rejects(bad + more, [bad + more]) or not rejects(bad + more, [bad, more]):
+                qp_law_failure(ctx, "encErr", {"rejected": bad.hex(), "more": more.hex()})
+        junk = bytes(r.randrange(256) for _ in range(r.randrange(1, 6)))
+
+        def enc_rejects(data):
+            e = pylsqpack.Encoder()
+            e.apply_settings(4096, 16)
+            try:
+                e.feed_decoder(data)
+                return False
+            except pylsqpack.DecoderStreamError:
+                return True
+        if enc_rejects(junk):
+            n_err += 1
+            if not enc_rejects(junk + more):
+                qp_law_failure(ctx, "decErr", {"rejected": junk.hex(), "more": more.hex()})
+        ctx.count(("qp-err", bad, junk, more), True)
+    stats["rejected_stream_cases"] = n_err
+    ctx.notes["qpack_laws"] = stats
+
+
+def qp_nonconformant_note(ctx, H3Impl):
+    """`QpackLaws.stable` is a promise of the PEER's encoder (RFC 9204 2.1.1: no eviction of an
+    entry a not-yet-acknowledged block references), not of pylsqpack: replaying a genuine
+    encoder stream that evicted after an acknowledgement, the events DO depend on whether the
+    request arrives before or after the evicting instructions.  Recorded, not a violation."""
+    r = rng.make("c14-qp-note")
+    for _ in range(40):
+        setb, tl = qp_timeline(r, 150, 12, acks=True)
+        cum = [setb]
+        for e, _, _ in tl:
+            cum.append(cum[-1] + e)
+        for k, (_, blk, hs) in enumerate(tl):
+            ok_at = next((i for i in range(k + 1, len(cum)) if qp_dec(150, cum[i], blk)[0] == "h"), None)
+            if ok_at is None:
+                continue
+            fail_at = next((j for j in range(ok_at + 1, len(cum)) if qp_dec(150, cum[j], blk) == ("f",)), None)
+            if fail_at is None:
+                continue
+            e1, e2 = b"\x02" + cum[ok_at], cum[fail_at][len(cum[ok_at]):]
+            req = g.frame(1, blk)
+            a = [(2, e1, False), (0, req, True), (2, e2, False)]
+            b = [(2, e1, False), (2, e2, False), (0, req, True)]
+            oa = run_deliveries(H3Impl, "h3.new 0 0 0 00000000", a)[0]
+            ob = run_deliveries(H3Impl, "h3.new 0 0 0 00000000", b)[0]
+            ctx.notes["qpack_stable_is_a_peer_obligation"] = {
+                "what": "encoder stream that evicts an entry a header block references (non-conformant peer): "
+                        "request before the evicting instructions = HeadersReceived, after = connection closed "
+                        "(QPACK_DECOMPRESSION_FAILED); inherent to QPACK, excluded by QpackLaws.stable",
+                "encoder_stream_part1": e1.hex(), "request_stream_0": req.hex(), "encoder_stream_part2": e2.hex(),
+                "schedule_a": "enc part1, request+FIN, enc part2", "outcome_a": str(oa)[:300],
+                "schedule_b": "enc part1, enc part2, request+FIN", "outcome_b": str(ob)[:300],
+            }
+            return
+
+
 def g_deliveries(sid, parts, fin, lone):
     d = [(sid, c, fin and (i == len(parts) - 1) and not lone) for i, c in enumerate(parts)]
     if fin and lone:
@@ -477,10 +723,18 @@ def main(tier):
         "pylsqpack, validate_* and the qlog header encoder are oracles of the model: their answers are recorded on "
         "the implementation and replayed to the model",
         "harness/impl_h3parser.py canonicalisation; CPython semantics between compared observations",
+        "schedule theorems: abstract decoder AQ.Model.Qpack (`qpackOracle Q`), tied to pylsqpack by the qpack-laws "
+        "section of this check (live decoder vs. model under random chunking/interleaving, laws stable/encErr/decErr)",
     ]
     ctx.assumptions = [
-        "chunk_independent: QPACK oracle never answers 'blocked' for the stream under test (blocking/interleaving is "
-        "covered by the differential + oracle runs only)",
+        "schedule_independent_stream / _streams_partial: QpackLaws — Q.dec is a function of (block, concatenation of "
+        "the encoder-stream bytes) [tested on pylsqpack, section qpack-laws]; an answer other than StreamBlocked is not "
+        "changed by later encoder-stream bytes [holds for a conformant peer encoder, RFC 9204 2.1.1; tested on genuine "
+        "ack-free pylsqpack.Encoder output; a peer that evicts a referenced entry breaks it — see note "
+        "qpack_stable_is_a_peer_obligation]; a rejected encoder/decoder stream stays rejected",
+        "schedule theorems: the encoder-stream bytes are accepted (otherwise the connection closes with 0x201 at a "
+        "schedule-dependent point); the link handle_event -> runM (stream table, uni-stream demultiplexer) is covered "
+        "by the differential interleaving runs, not by a theorem",
         "FIN is delivered with or after the last byte of a stream (guaranteed by QuicStreamReceiver, C10)",
         "Decoder.resume_header does not raise StreamBlocked for an id feed_encoder reported unblocked",
     ]
@@ -697,6 +951,10 @@ def main(tier):
     ctx.notes["boundary_roundtrips"] = nb
 
     # 4. frame codec
+    # 5. the QPACK decoder as the abstract parameter of the schedule theorems
+    qpack_laws(ctx, rng.make("c14-qpack"), thorough)
+    qp_nonconformant_note(ctx, H3Impl)
+
     batch = g.Batch(ctx, "frame-codec")
     case = []
     for t in [0, 1, 5, 0x21, 0x3f, 0x40, 0x41, 0x3fff, 0x4000, (1 << 30) - 1, 1 << 30, (1 << 62) - 1, 1 << 62]:
@@ -720,7 +978,11 @@ def main(tier):
         "trailers, PUSH_PROMISE — also on streams whose LOCAL sending side ended first, with the whole response incl. "
         "FIN delivered before the control/encoder streams as forced orders 1 and 2; reference = encoder stream first; "
         "trailers, PUSH_PROMISE); round trips of the real send_headers/send_data output with static / literal / "
-        "dynamic-table header lists under random chunking and interleaving. Non-trivial = more than one delivery "
+        "dynamic-table header lists under random chunking and interleaving; QPACK laws: genuine pylsqpack.Encoder "
+        "timelines (capacities 220/512/4096, 3-8 header lists, repeated headers to force inserts), Q.dec evaluated on "
+        "fresh decoders at random byte prefixes of the encoder stream (any chunking, any stream id, other streams "
+        "pending), a live decoder driven like h3/connection.py against the qpackOracle model under random chunking "
+        "and interleaving, random corrupted encoder/decoder streams. Non-trivial = more than one delivery "
         "or a lone FIN (chunking), a non-reference order (interleaving), a blocked stream or > 6 deliveries (round "
         "trip); distinct by op-sequence hash."
     )
@@ -735,6 +997,18 @@ def replay(path):
     tree.activate()
     from harness.impl_h3parser import H3Impl
     d = json.load(open(path))
+    if d.get("kind") != "impl-witness" and any(b.get("correspondence") == "qpack-laws" for b in d.get("broken", [])):
+        class _C:
+            broken, notes = [], {}
+
+            def count(self, *a):
+                pass
+        c = _C()
+        qpack_laws(c, rng.make("c14-qpack"), False)
+        for b in c.broken[:3]:
+            print("VIOLATION-DETAIL pylsqpack does not satisfy the QPACK law", b.get("law"), str(b)[:400])
+        print("still failing" if c.broken else "no longer failing")
+        return 1 if c.broken else 0
     if d.get("kind") != "impl-witness":
         n = g.replay_broken(H3Impl, d.get("broken", []))
         print("still failing" if n else "no longer failing")
